@@ -75,8 +75,18 @@ def _scenario(ctx, i):
     npart = [1, 2, 3, 4, 5, 6][i % 6] if i < 6 else r.randint(1, 6)
     mix = ['gas+inert', 'oil+inert', 'gas', 'oil', 'inert', 'gas+inert'][i % 6] if i < 6 else 'random'
     depth = [150., 2400.][i % 2] if i < 2 else None
+    if i % 8 == 1:
+        # shallow vertical gas release into weakly stratified water with no distance limit: reaches the surface
+        scn = scen_bpm.random_scenario(r, nparticles=r.randint(1, 3), depth=r.uniform(100., 160.), mix='gas', biodeg=False,
+                                       background='none', current=r.choice(['none', 'uniform']), strat='weak', wa=False)
+        scn['release']['phi_0'] = -math.pi / 2
+        for sp in scn['particles']:
+            sp['mdot'] = r.uniform(0.5, 5.)
+            sp['de'] = r.uniform(0.003, 0.01)
+        scn['release']['sd_max'] = 1e5
+        return scn
     scn = scen_bpm.random_scenario(r, nparticles=npart, depth=depth, mix=mix, biodeg=False, background='none')
-    if i == 2:
+    if i % 8 == 2:
         scn['release']['phi_0'] = 0.           # exactly horizontal release (end of the quantifier's range)
     scn['release']['sd_max'] = r.choice([r.uniform(30., 300.), r.uniform(30., 300.), 1e5])
     return scn
@@ -235,7 +245,7 @@ def check_simulation(ctx, scn, bpm, prf, parts, tam):
         ctx.violation('stop-without-documented-reason', 'simulation returned without taking a step', dict(base))
     elif kstop is None:
         ctx.violation('stop-without-documented-reason',
-                      'simulation ended although none of surface / neutral-after-peak / distance / stall / cap holds in the last row (integrator failure)',
+                      'simulation ended although none of surface / neutral-after-peak / distance / stall / cap holds in the last row (integrator failure or an undocumented stop test)',
                       dict(base, z_end=float(q[-1, 9]), s_over_D=float(q[-1, 10] / bpm.D), sd_max=float(rel['sd_max'])))
     elif kstop != n - 1:
         ctx.violation('ran-past-stop-test', 'simulation continued after a row that satisfies a documented stop test',
@@ -298,7 +308,7 @@ def _tamoc():
 def run(ctx, lean_ok):
     warnings.filterwarnings('ignore')
     tam = _tamoc()
-    nscn = ctx.n(6, 60)
+    nscn = ctx.n(8, 64)
     sims = []
     lines = []
     corr = []
